@@ -13,6 +13,7 @@ import (
 	"github.com/tink-crypto/tink-go/v2/internal/internalapi"
 	"github.com/tink-crypto/tink-go/v2/key"
 	"github.com/tink-crypto/tink-go/v2/keyset"
+	"github.com/tink-crypto/tink-go/v2/signature/mldsa"
 	"github.com/tink-crypto/tink-go/v2/secretdata"
 	"github.com/tink-crypto/tink-go/v2/verifharness/hx"
 	"google.golang.org/protobuf/proto"
@@ -194,6 +195,14 @@ func c11Run(in string) string {
 				idres(km.AddNewKeyFromParameters(c11Key(7, true, 0).Parameters()))
 			case op == "PR":
 				idres(km.AddNewKeyFromParameters(c11Key(0, false, 0).Parameters()))
+			case op == "PW":
+				// parameters whose template carries the FIFTH output prefix type, WITH_ID_REQUIREMENT (ML-DSA
+				// NoPrefixWithPrehashID): the key must be bound to the id the manager draws, like a TINK key
+				pw, err := mldsa.NewParameters(mldsa.MLDSA44, mldsa.VariantNoPrefixWithPrehashID)
+				if err != nil {
+					panic(err)
+				}
+				idres(km.AddNewKeyFromParameters(pw))
 			case op[0] == 'O':
 				// O<req|R>:<opt>,...   the internal API AddKeyWithOpts
 				f2 := strings.SplitN(op[1:], ":", 2)
@@ -423,7 +432,7 @@ func c11Gen(r *hx.Rng, n int, tier string) []string {
 		for i := 0; i < nops; i++ {
 			switch x := r.Intn(100); {
 			case x < 14:
-				ops = append(ops, hx.PickS(r, []string{"AT", "AT", "AR", "AN", "AU", "AB", "AL", "PT", "PR"}))
+				ops = append(ops, hx.PickS(r, []string{"AT", "AT", "AR", "AN", "AU", "AB", "AL", "PT", "PR", "PW"}))
 			case x < 19 && r.Chance(60):
 				// AddKeyWithOpts with a random option list in random order
 				req := "R"
